@@ -13,7 +13,7 @@
    rewrite relation; the skip and squash lemmas by induction on the input), no axioms. *)
 From Coq Require Import List NArith.
 Import ListNotations.
-From PP Require Import Base Syntax Spec SpecMono SpecLaws SpecEquiv Opt OptProof Interp InterpProof Gen GenProof.
+From PP Require Import Base Syntax Spec SpecMono SpecLaws SpecEquiv Opt OptProof OptSkip Interp InterpProof Gen GenProof.
 
 (* `req`: same constructor; on success the same tree and the same final position, stack and tags;
    failure with failure; undefined rule with undefined rule *)
@@ -22,6 +22,16 @@ Theorem C02_validated_optimization_preserves_meaning : forall g g' fuel, ochk_gr
     (forall f r, parse g f rule input k = r -> r <> Fuel -> exists f', req (parse g' f' rule input k) r) /\
     (forall f r, parse g' f rule input k = r -> r <> Fuel -> exists f', req (parse g f' rule input k) r).
 Proof. exact ochk_sound. Qed.
+
+(* the fused SKIP rule the optimizer adds (and the optimised parsers call instead of
+   iterating WHITESPACE / COMMENT): validated by `ochk_skip`, it consumes exactly what pest's implicit
+   skipping consumes in the ORIGINAL grammar, with the same pairs (OptSkip.v) *)
+Theorem C02_fused_skip_rule_is_implicit_skipping : forall g g' fuel,
+  ochk_grammar g g' fuel = true -> ochk_skip g g' fuel = true -> defined_in g' SKIP_ID = true ->
+  forall c s, c_atom c = NonAtomic ->
+    (forall r, skips g c s r -> exists r', evals g' (sup_ctx c) (ERef SKIP_ID None) s r' /\ req r' r) /\
+    (forall r', evals g' (sup_ctx c) (ERef SKIP_ID None) s r' -> exists r, skips g c s r /\ req r r').
+Proof. exact skip_rule_sound. Qed.
 
 (* hence for the two machines (Interp.v: modes I / O, Gen.v: modes IG / OG): on a validated pair of
    tables, whenever the interpreter finishes on both, it returns the same tree or fails on both *)
@@ -137,3 +147,4 @@ Print Assumptions C02_unroll_min.
 Print Assumptions C02_unroll_max.
 Print Assumptions C02_unroll_minmax.
 Print Assumptions C02_skip_side_condition.
+Print Assumptions C02_fused_skip_rule_is_implicit_skipping.
